@@ -288,6 +288,29 @@ func headerEntriesComplete(e *Env, rule string) {
 // GenerateMapEntry(closure) whose closure encodes ToLower(name) as key and the
 // joined values as value.
 func appendCarriesHeaderEntry(app *ssa.Call) bool {
+	check := func(mc *ssa.MakeClosure) bool {
+		cf := mc.Fn.(*ssa.Function)
+		hasKey, hasVal := false, false
+		for _, cb := range cf.Blocks {
+			for _, ci := range cb.Instrs {
+				c, ok := ci.(ssa.CallInstruction)
+				if !ok {
+					continue
+				}
+				if prov.CalleeName(c.Common()) != "(*cbor.Encoder).EncodeByteString" {
+					continue
+				}
+				a := c.Common().Args
+				if prov.Match("param:keyE", prov.Of(a[0])) && prov.Match("conv(call:strings.ToLower({free:name|rangekey(param:headers)}))", prov.Of(a[1])) {
+					hasKey = true
+				}
+				if prov.Match("param:valueE", prov.Of(a[0])) && prov.Match("conv(call:*.normalizeHeaderValues({free:value|rangeval(param:headers)}))", prov.Of(a[1])) {
+					hasVal = true
+				}
+			}
+		}
+		return hasKey && hasVal
+	}
 	fn := app.Parent()
 	for _, b := range fn.Blocks {
 		for _, in := range b.Instrs {
@@ -295,29 +318,45 @@ func appendCarriesHeaderEntry(app *ssa.Call) bool {
 			if !ok {
 				continue
 			}
-			cf := mc.Fn.(*ssa.Function)
-			hasKey, hasVal := false, false
-			for _, cb := range cf.Blocks {
-				for _, ci := range cb.Instrs {
-					c, ok := ci.(ssa.CallInstruction)
-					if !ok {
-						continue
-					}
-					if prov.CalleeName(c.Common()) != "(*cbor.Encoder).EncodeByteString" {
-						continue
-					}
-					a := c.Common().Args
-					if prov.Match("param:keyE", prov.Of(a[0])) && prov.Match("conv(call:strings.ToLower({free:name|rangekey(param:headers)}))", prov.Of(a[1])) {
-						hasKey = true
-					}
-					if prov.Match("param:valueE", prov.Of(a[0])) && prov.Match("conv(call:*.normalizeHeaderValues({free:value|rangeval(param:headers)}))", prov.Of(a[1])) {
-						hasVal = true
-					}
-				}
-			}
-			if hasKey && hasVal && flow.Reaches(mc, func(call ssa.CallInstruction, i int) bool { return call == ssa.CallInstruction(app) && i == 1 }) {
+			if check(mc) && flow.Reaches(mc, func(call ssa.CallInstruction, i int) bool { return call == ssa.CallInstruction(app) && i == 1 }) {
 				return true
 			}
+		}
+	}
+	// the entry is built by a helper the rule tables do not know: the element
+	// appended is that helper's result, GenerateMapEntry(closure), examined
+	// with the helper's parameters standing for the arguments of the call
+	for _, el := range appendedElems(app) {
+		c, ok := el.(*ssa.Call)
+		if !ok {
+			continue
+		}
+		h := c.Call.StaticCallee()
+		if h == nil || h.Blocks == nil || prov.KnownFunction(h) || h.Pkg == nil || !strings.HasPrefix(h.Pkg.Pkg.Path(), prov.ModulePrefix) || len(c.Call.Args) != len(h.Params) {
+			continue
+		}
+		var rets []*ssa.Return
+		for _, b := range h.Blocks {
+			if r, ok := b.Instrs[len(b.Instrs)-1].(*ssa.Return); ok {
+				rets = append(rets, r)
+			}
+		}
+		if len(rets) != 1 || len(rets[0].Results) != 1 {
+			continue
+		}
+		gm, ok := rets[0].Results[0].(*ssa.Call)
+		if !ok || !strings.HasSuffix(prov.CalleeName(&gm.Call), "cbor.GenerateMapEntry") || len(gm.Call.Args) != 1 {
+			continue
+		}
+		mc, ok := gm.Call.Args[0].(*ssa.MakeClosure)
+		if !ok {
+			continue
+		}
+		prov.PushSubst(h, &c.Call)
+		good := check(mc)
+		prov.PopSubst()
+		if good {
+			return true
 		}
 	}
 	return false
